@@ -1971,7 +1971,14 @@ func runC03Proc(c *fw.Case) {
 	// client configuration: the store's format, decoys that must not apply, flags that must not disable verification
 	disabled := c.Chance(1, 8, "verify.disabled")
 	cfgFile := filepath.Join(c.Dir(), "config.json")
+	// a compressed, verified store needs no entry of its own; and a directory may be named with a trailing slash
+	if backend == 0 && c.ChanceAdded(1, 3, "cfg.trailing-slash") {
+		location += "/"
+	}
 	entries := []string{fmt.Sprintf(`%q: {"uncompressed": %v, "skip-verify": %v}`, location, unc, disabled)}
+	if !unc && !disabled && c.ChanceAdded(1, 2, "cfg.no-own-entry") {
+		entries = nil
+	}
 	if c.Bool("cfg.decoy") {
 		entries = append(entries, fmt.Sprintf(`%q: {"skip-verify": true}`, filepath.Join(c.Dir(), "elsewhere")), `"http://198.51.100.7/*": {"skip-verify": true, "uncompressed": true}`)
 	}
@@ -1983,7 +1990,8 @@ func runC03Proc(c *fw.Case) {
 			base := strings.TrimSuffix(location, "/")
 			cands = []string{base + "/sub", base + "/sub/", base + "0/", strings.Replace(base, "127.0.0.1", "127.0.0.2", 1) + "/", base + "/*", "https" + strings.TrimPrefix(base, "http") + "/", base[:len(base)-1] + "?x/"}
 		} else {
-			cands = []string{location + "2", strings.TrimSuffix(location, ".d"), filepath.Dir(location), location + "/sub", filepath.Join(filepath.Dir(location), "*", "store.d"), location + "/*", filepath.Join(filepath.Dir(location), "stor?.x")}
+			l := strings.TrimSuffix(location, "/")
+			cands = []string{l + "2", strings.TrimSuffix(l, ".d"), filepath.Dir(l), l + "/sub", filepath.Join(filepath.Dir(l), "*", "store.d"), l + "/*", filepath.Join(filepath.Dir(l), "stor?.x")}
 		}
 		for i := 0; i < 3; i++ {
 			p := cands[c.Draw(len(cands), "cfg.nearmiss.pick")]
